@@ -25,7 +25,24 @@ pub enum Flavor {
 
 pub const FLAVORS: &[Flavor] = &[Flavor::Plain, Flavor::Wide, Flavor::AnsiOk, Flavor::AnsiBad, Flavor::Mixed];
 
+/// long escape sequences: CSI with 60..3000 parameter characters, OSC payloads of 2000..5000
+/// characters (length limits inside the escape skipper show only here). Leaked on purpose: the
+/// token interface hands out `&'static str`.
+fn long_sequence(rng: &mut Rng) -> &'static str {
+    let n = [60usize, 63, 64, 65, 66, 127, 128, 129, 255, 256, 257, 1000, 3000][rng.below(13)];
+    let s = if rng.chance(1, 2) {
+        format!("\x1b[{}m", "1;".repeat(n / 2))
+    } else {
+        let m = [100usize, 2000, 2080, 2083, 2084, 2090, 4096, 5000][rng.below(8)];
+        format!("\x1b]8;;http://example.com/{}\x1b\\", "a".repeat(m))
+    };
+    Box::leak(s.into_boxed_str())
+}
+
 fn token(rng: &mut Rng, fl: Flavor) -> &'static str {
+    if matches!(fl, Flavor::AnsiOk | Flavor::Mixed) && rng.chance(1, 120) {
+        return long_sequence(rng);
+    }
     match fl {
         Flavor::Plain => *rng.pick(PLAIN),
         Flavor::Wide => if rng.chance(1, 5) { *rng.pick(ALIAS) } else if rng.chance(1, 2) { *rng.pick(WIDE) } else { *rng.pick(PLAIN) },
